@@ -316,8 +316,20 @@ func (e *Exec) evalMulti(st *State, x ast.Expr, n int) []Term {
 		v := e.eval(st, y.X)
 		to := e.typeOf(y.Type)
 		if isInterface(to) {
-			e.unsupportedf(x.Pos(), "interface-to-interface assertion with ok")
-			return []Term{v, e.fresh("ok", SBool)}
+			// x.(I) with ok: true exactly when the dynamic type is one of the module's implementations of I (types of
+			// other packages that would implement I are not considered: a module-internal interface has none)
+			impls := e.implementations(to)
+			if len(impls) == 0 || len(impls) > 6 {
+				e.unsupportedf(x.Pos(), "interface-to-interface assertion with ok")
+				return []Term{v, e.fresh("ok", SBool)}
+			}
+			var alts []Term
+			for _, it := range impls {
+				alts = append(alts, Eq(CKind(v), IntLit(int64(e.kindCode(it)))))
+			}
+			ok := e.bindLocal("tok", Or(alts...))
+			e.note("interface", fmt.Sprintf("x.(%s) succeeds exactly for the implementations defined in this module", to))
+			return []Term{Ite(ok, v, NilCont), ok}
 		}
 		ok := Eq(CKind(v), IntLit(int64(e.kindCode(to))))
 		return []Term{Ite(ok, CRef(v), IntLit(0)), ok}
